@@ -236,11 +236,14 @@ def run_case(eng, op, kind, a1, a2, n1, n2, frac=False, reach_twin=False, spec_o
         if isinstance(expect, str):
             sat.append((st, None, info, 'returned Err'))
             continue
-        if got is None or tag_ok is False:
-            sat.append((st, None, info, 'result carries the wrong tag'))
-            continue
-        if tag_ok is None:
-            sat.append((st, None, info, 'intersect/diff returned the full type or union returned the empty type for proper operands'))
+        if got is None or tag_ok is False or tag_ok is None:
+            # a violation of the result's shape on a feasible path: any model of the path condition is a witness for the native replay
+            s = z3.Solver()
+            s.add(st.pc)
+            nq += 1
+            model = s.model() if s.check() == z3.sat else None
+            sat.append((st, model, info, 'result carries the wrong tag' if (got is None or tag_ok is False) else
+                        'intersect/diff returned the full type or union returned the empty type for proper operands'))
             continue
         if kinds_only:
             nq += 1
